@@ -7,6 +7,7 @@ bspline.interpolate and bspline.project_L2 on every case and compares (M1).
 Extension point: EXTRA_SPACE_BUILDERS -- a list of callables  f(ctx, case, api) -> None  that drive further
 kinds of spaces (e.g. hierarchical ones) through the same comparisons; see `Api` below."""
 import contextlib
+import functools
 import io
 import itertools
 from concurrent.futures import ThreadPoolExecutor
@@ -388,6 +389,106 @@ def drive_tensor_product(ctx, case, api):
         residual_ok(call, r, TOL_DIRECT)
 
 
+HPREWARM = r'''
+import sys
+sys.path.insert(0, %(repo)r); sys.path.insert(0, %(verif)r)
+import json, numpy as np
+from harness import hs_util
+from pyiga import approx
+cfg = json.loads(%(cfg)r)
+hs = hs_util.make_space(cfg, integer_grid=True)
+approx.project_L2(hs, lambda *X: 1.0 + 0 * X[0])
+print('ok')
+'''
+
+
+def hierarchical_part(ctx):
+    """L2 projection into hierarchical spaces (HB and THB) reproduces every function of the space: spaces = reachable
+    states of spec/HRepr.tla, functions = integer combinations of the (T)HB basis, built with HSplineFunc."""
+    import json
+    import os
+    import subprocess
+    from concurrent.futures import ThreadPoolExecutor as TPE
+    from ..common import PY, REPO, VERIF
+    from .. import hs_util
+    from pyiga import approx, hierarchical
+    base = dict(D=1, P1=2, P2=0, N1=3, N2=0, MaxLev=3, Disp=0, TruncMark=False, MaxCalls=2, MarkCap=2, DoEmit=True)
+    cfgs = [('h1d-p2-n3', dict(base)), ('h2d-p12-2x2', dict(base, D=2, P1=1, P2=2, N1=2, N2=2, MarkCap=1))]
+    if ctx.thorough:
+        cfgs.append(('h1d-p3-n3-d1', dict(base, P1=3, Disp=1, MaxCalls=3)))
+        cfgs.append(('h2d-p2-2x2-d1', dict(base, D=2, P1=2, P2=2, N1=2, N2=2, Disp=1, MarkCap=2)))
+    pool = TPE(6)
+    warm = []
+    for d in sorted({c['D'] for _, c in cfgs}):
+        c0 = next(c for _, c in cfgs if c['D'] == d)
+        code = HPREWARM % dict(repo=str(REPO), verif=str(VERIF), cfg=json.dumps(c0))
+        warm.append(pool.submit(subprocess.run, [PY, '-c', code], env=dict(os.environ), stdout=subprocess.PIPE,
+                                stderr=subprocess.PIPE, text=True, timeout=1800))
+
+    def one(item):
+        name, consts = item
+        cfg = write_cfg(ctx.scratch / ('hr17_%s.cfg' % name), consts, invariants=['FunChar', 'BasisOK'], view='View')
+        return name, consts, ctx.tlc('HRepr', cfg, workers=3, timeout=3000)
+    runs = [pool.submit(one, it) for it in cfgs]
+    for w in warm:
+        w.result()
+    rng = np.random.RandomState(ctx.seed + 5)
+    for r in runs:
+        name, consts, res = r.result()
+        reps = res.recs('REPR')
+        if not reps:
+            raise MachineryError('HRepr emitted nothing for %s' % name)
+        step = 1 if ctx.thorough else max(1, len(reps) // 12)
+        for rp in reps[::step]:
+            marks = [c['marks'] for c in rp['hist']]
+            for trunc in (False, True):
+                hs, _, err = hs_util.replay_history(consts, rp['hist'], truncate=trunc, integer_grid=True)
+                if err is not None:
+                    continue
+                if [(l, tuple(x)) for l, x in hs.active_functions(flat=True)] != [(e['l'], tuple(e['x'])) for e in rp['canonF']]:
+                    continue
+                n = hs.numdofs
+                from fractions import Fraction as _F
+                R = np.zeros((rp['nfine'], n))
+                for r_, c_, nn_, dd_ in rp['thb' if trunc else 'hb']:
+                    R[r_, c_] = float(_F(nn_, dd_))
+                kvf = hs.knotvectors(hs.numlevels - 1)
+                S = [float(kv.kv[-1]) for kv in kvf]
+                pmin = min(kv.p for kv in kvf)
+                sigb = 'truncate=%s config=%s marks=%s' % (trunc, name, json.dumps(marks))
+                # (a) a global polynomial of degree <= p lies in every hierarchical space and is integrated exactly on
+                #     every level: the projection must reproduce it; checked through the exact representation matrix
+                poly = (lambda *X: functools.reduce(np.multiply, [1.0 + (X[i] / S[::-1][i]) ** pmin for i in range(len(S))]))
+                try:
+                    got = np.asarray(approx.project_L2(hs, poly)).ravel()
+                    from pyiga import bspline as _b
+                    cf = _b.interpolate(kvf[0], lambda x: 1.0 + (x / S[0]) ** pmin) if len(kvf) == 1 else \
+                        approx.interpolate(kvf, poly)
+                    cf = np.asarray(cf).ravel()
+                except Exception as ex:
+                    ctx.violation('exception %s hierarchical project_L2 %s' % (type(ex).__name__, sigb), {'error': repr(ex)})
+                    continue
+                ctx.case(('hproj', name, json.dumps(marks), trunc), nontrivial=hs.numlevels >= 2,
+                         sample={'hierarchical space': name, 'marks_per_call': marks, 'truncate': trunc, 'numdofs': n}
+                         if hs.numlevels >= 3 and len(ctx.samples) < 6 else None)
+                if got.shape != (n,) or np.abs(R @ got - cf).max() > 1e-8 * max(1.0, np.abs(cf).max()):
+                    ctx.violation('hierarchical project_L2 does not reproduce a global polynomial ' + sigb,
+                                  {'maxdiff': float(np.abs(R @ got - cf).max()) if got.shape == (n,) else 'shape'})
+                # (b) a function of the space with kinks inside coarse cells (integer combination of the basis)
+                c = rng.randint(-3, 4, size=n).astype(float)
+                try:
+                    f = hierarchical.HSplineFunc(hs, c, truncate=trunc)
+                    got2 = np.asarray(approx.project_L2(hs, f)).ravel()
+                except Exception as ex:
+                    ctx.violation('exception %s hierarchical project_L2 of HSplineFunc %s' % (type(ex).__name__, sigb), {'error': repr(ex)})
+                    continue
+                if hs.numlevels >= 2 and (got2.shape != c.shape or np.abs(got2 - c).max() > 1e-8 * max(1.0, np.abs(c).max())):
+                    ctx.violation('hierarchical project_L2 does not reproduce a function of the space with kinks inside coarse cells',
+                                  {'config': name, 'marks_per_call': marks, 'truncate': trunc,
+                                   'maxdiff': float(np.abs(got2 - c).max()) if got2.shape == c.shape else 'shape'})
+    pool.shutdown()
+
+
 def run(ctx):
     ctx.rule = ('TLC enumerates spec/Approx.tla: one case per (tuple of 1-3 knot vectors out of 12 with degrees 0..4, '
                 'non-uniform / repeated knots, Greville or shifted unisolvent nodes, data variant, affine geometry); '
@@ -456,6 +557,7 @@ def run(ctx):
         ctx.case((tuple(case['dt']), case['v']), nontrivial=nontriv,
                  sample={'dirs': [[D['p'], D['kv']] for D in case['dirs']], 'geo': case['geo'], 'valshape': case['vsh'],
                          'degree_in': case['mIn'], 'degree_out': case['mOut']} if len(ctx.samples) < 4 else None)
+    hierarchical_part(ctx)
     ctx.notes['library_calls_compared'] = calls
     ctx.notes['cg_not_converged_warnings'] = warnings
     ctx.notes['weighted_outside_cases'] = weighted
